@@ -20,6 +20,7 @@ func c09Gen(rt *rapid.T) wProg {
 	// user 1 has two sessions: the second one mostly sits on 'me' only and observes {pres}
 	p.Sess = append([]int(nil), gPick(rt, [][]int{{0, 1, 1, 2}, {0, 1, 1, 2, 3}, {0, 0, 1, 1, 2}}, "layout")...)
 	gGrpc(rt, &p, 20)
+	gLat(rt, &p, 25)
 	isChan := gPct(rt, 35)
 	kind := "new"
 	if isChan {
